@@ -1247,6 +1247,24 @@ def c17_closure(tier, seed):
                                  'script': "from rdkit import Chem\nfrom pgradd.RDkitWrapper.GenRxnNet import GenerateRxnNet\nprint([Chem.MolToSmiles(m) for m in GenerateRxnNet(%r, %r)])\n" % (list(seeds), [rules[r] for r in rs])})
                 elif len(samples) < 3:
                     samples.append({'seeds': seeds, 'rules': rs, 'species': sorted(want)[:8]})
+    # rules given as RING text, several calls in one process: the same species arriving again with its atoms in another order, the same
+    # rule text used again (nothing may be carried from one call to the next)
+    ring = {'CH': 'rule r{ reactant r1{ C? labeled c1 H labeled h1 single bond to c1 } break bond (c1, h1) increase number of radical (c1) increase number of radical (h1) }',
+            'OH': 'rule r{ reactant r1{ O? labeled o1 H labeled h1 single bond to o1 } break bond (o1, h1) increase number of radical (o1) increase number of radical (h1) }'}
+    with real.quiet():
+        for rk, spellings in (('CH', ['CCO', 'OCC', 'C(O)C']), ('OH', ['OCC', 'CCO']), ('CH', ['CO', 'OC'])):
+            for smi in spellings:
+                n += 1
+                try:
+                    got = sorted(Chem.MolToSmiles(Chem.MolFromSmiles(Chem.MolToSmiles(m))) for m in GenerateRxnNet([smi], [ring[rk]]))
+                except Exception as e:    # noqa
+                    got = 'raised %s: %s' % (type(e).__name__, str(e)[:80])
+                want = sorted(Chem.MolToSmiles(Chem.MolFromSmiles(x)) if Chem.MolFromSmiles(x) is not None else x for x in closure([smi], [rk]))
+                distinct += 1
+                if got != want and len(viol) < 16:
+                    viol.append({'id': 'ring-text-%s-%s' % (rk, smi), 'input': {'seed': smi, 'rule (RING text)': ring[rk], 'earlier calls in this process': 'same rule on other spellings of the species'},
+                                 'observed': got, 'expected': want,
+                                 'script': "from rdkit import Chem\nfrom pgradd.RDkitWrapper.GenRxnNet import GenerateRxnNet\nR = %r\nfor s in %r:\n    print(s, sorted(Chem.MolToSmiles(m) for m in GenerateRxnNet([s], [R])))\n" % (ring[rk], spellings)})
     return {'name': 'independent-bfs-closure', 'evaluations': n, 'distinct_nontrivial': distinct, 'violations': viol, 'samples': samples,
             'bound': '%d seed sets of 1..2 small molecules x %d rule sets of bond-scission SMARTS' % (len(seedsets), len(rulesets)),
             'rule': 'a case is (seed set, rule set); distinct by construction'}
